@@ -36,6 +36,9 @@ pub enum Step {
 /// (such a grammar is only accepted when useless nonterminals hide the conflict the cycle would cause).
 pub const CLASS_CYCLE_LOOP: &str = "nontermination-on-derivation-cycle";
 
+/// Token feeds per grammar after which the exploration stops descending (reported as capped in the evidence).
+pub const FEED_BUDGET: u64 = 400_000;
+
 pub const STEP_HORIZON: usize = 100_000;
 /// correct tables keep the stacks shorter than the input plus the longest chain of unit reductions
 pub const MAX_STACK: usize = 4_096;
@@ -175,14 +178,14 @@ fn ref_feed(g: &Grammar, tb: &Tables, cfg: &mut RefCfg, la: u8) -> Step {
 }
 
 pub fn depth_for(t: usize, tier_deep: bool) -> usize {
+    // for many terminals the trie is kept small by viability pruning and by the feed budget (FEED_BUDGET)
     let base = match t {
         0 => 1,
         1 => 10,
         2 => 8,
         3 => 6,
         4 | 5 => 5,
-        6 => 4,
-        _ => 3,
+        _ => 6,
     };
     if tier_deep && t >= 1 {
         base + 1
@@ -206,6 +209,7 @@ struct Explorer<'a> {
     reported: bool,
     nodes_visited: u64,
     feeds: u64,
+    capped: bool,
 }
 
 fn word_json(case: &Case, w: &[u8]) -> Value {
@@ -285,6 +289,10 @@ impl<'a> Explorer<'a> {
             self.report("C01", format!("the emitted parser rejects the sentence {:?} (it reported an error inside it)", self.word), json!("Ok"), json!("Err"));
         }
         if at >= self.depth {
+            return;
+        }
+        if self.feeds > FEED_BUDGET {
+            self.capped = true;
             return;
         }
         // ---- one more token
@@ -388,10 +396,13 @@ pub fn model_case(case: &Case, gen: &Gen, rf: &Reference, property: &str, acc: &
     let start_nt = 0u8;
     let model = Model { case, b: &b, start_nt };
     let init = model.initial();
-    let mut ex = Explorer { case, model, rf, all_productive: rf.all_productive, depth, property, acc, word: vec![], reported: false, nodes_visited: 0, feeds: 0 };
+    let mut ex = Explorer { case, model, rf, all_productive: rf.all_productive, depth, property, acc, word: vec![], reported: false, nodes_visited: 0, feeds: 0, capped: false };
     let mut earley = Some(Earley::new(&a));
     ex.dfs(Some(init), Some(RefCfg { states: vec![rf.lr1_tables.start] }), &mut earley);
     let (n, f) = (ex.nodes_visited, ex.feeds);
+    if ex.capped {
+        acc.inc("grammars whose trie was cut by the feed budget (deeper words not explored)");
+    }
     acc.add("configurations", n);
     acc.add("token feeds", f);
     acc.sample(|| json!({"source": case.rendered.source, "depth": depth, "configurations": n, "token_feeds": f}));
